@@ -21,7 +21,8 @@ RULE = (
     "dividend/divisor pairs over 1-3 indeterminates (q0,q1,q2), shapes 0-d..2-d with broadcasting, int and float "
     "coefficients, from the classes random / exact-multiple (cofactor*divisor built in numpoly and in the model) / "
     "multiple-plus-remainder / constant-divisor (with zero entries) / univariate / incomparable-top-terms "
-    "(e.g. q1**2-2*q0) / per-element-different-leading-terms. With the division-loop monitor armed: the call "
+    "(e.g. q1**2-2*q0) / per-element-different-leading-terms / plain non-integral numbers, lists and ndarrays on the "
+    "left of an (often integer, often constant) polynomial. With the division-loop monitor armed: the call "
     "returns (a repeated loop state is a non-termination witness, 400 candidate searches - an order of magnitude above any terminating run at these sizes - are reported as cap-without-repeat); dividend == "
     "q*divisor + r in the model (tolerance 1e-8*scale); non-zero constant divisor element => q is the true quotient "
     "and r == 0; exact multiple => r == 0 and q == cofactor; one indeterminate => deg r < deg divisor; / % divmod "
@@ -37,7 +38,7 @@ ASSUMPTIONS = [
 
 NAMES = ["q0", "q1", "q2"]
 CLASSES = ["random", "exact-multiple", "multiple-plus-remainder", "constant-divisor", "univariate",
-           "incomparable-top", "per-element-leading"]
+           "incomparable-top", "per-element-leading", "number-on-the-left"]
 SPELL = ["function", "function", "operators", "reflected"]
 
 
@@ -103,6 +104,23 @@ def case_st(draw):
     else:
         case["divisor"] = draw(gen.poly_desc(names=names, shape=shp_b, kind=kind, max_terms=3, max_exp=2,
                                              min_terms=1, retain=False))
+    if cls == "number-on-the-left":
+        # plain (non-integral) numbers on the left of / % divmod, polynomial (often int, often constant) on the right
+        size_a = gen.size_of(shp_a)
+        how = draw(st.sampled_from(["array", "list", "pyfloat", "pyint"]))
+        akind = "i" if how == "pyint" else draw(st.sampled_from(["f", "f", "i"]))
+        if how in ("pyfloat", "pyint"):
+            shp_a = ()
+            size_a = 1
+        vals = draw(st.lists(st.sampled_from([30, 15, -6, 7, 2, 0, 9, -13] if akind == "f" else [7, 3, -4, 0, 9]),
+                             min_size=size_a, max_size=size_a))
+        case["dividend"] = {"num": how, "shape": list(shp_a), "kind": akind, "values": vals}
+        case["spelling"] = "reflected"
+        if draw(st.booleans()):
+            case["divisor"] = {"names": [names[0]], "shape": list(shp_b), "kind": draw(st.sampled_from(["i", "i", "f"])),
+                               "terms": [[[0], draw(st.lists(st.sampled_from([1, 2, -2, 4, 3]), min_size=size_b,
+                                                             max_size=size_b))]], "retain": False}
+        return case
     if cls in ("exact-multiple", "multiple-plus-remainder") or (
             cls in ("univariate", "incomparable-top", "per-element-leading") and draw(st.booleans())):
         case["cofactor"] = draw(gen.poly_desc(names=names, shape=shp_a, kind=kind, max_terms=3, max_exp=2,
@@ -150,7 +168,7 @@ def check_case(case, ctx):
             ctx.discard_case("dividend-construction-mismatch")
             return []
     else:
-        dd, ddm = build_checked(case["dividend"])
+        dd, ddm = build_operand(case["dividend"])
     before = (snapshot(dd), snapshot(dv))
     shape = numpy.broadcast_shapes(ddm.shape, dvm.shape)
     ddb = numpy.broadcast_to(ddm, shape)
@@ -222,6 +240,8 @@ def check_case(case, ctx):
                     trip = None
                 else:
                     lefts = left.tolist() if ddm.ndim else float(left)
+                    if not isinstance(dd, numpoly.ndpoly):
+                        lefts = dd  # the generated plain operand itself (number, list or ndarray)
                     ref = numpoly.poly_divmod(lefts, dv)
                     q, r = ref
                     trip = (lefts / dv, lefts % dv, divmod(lefts, dv))
